@@ -72,28 +72,49 @@ def ceil_i(x):
     return z3.ToInt(c) if c is not None else CEILI(x)
 
 
-def rounding_facts(formulas):
-    """definitional facts for every CEIL/FLOOR application occurring in `formulas`"""
-    seen, out, todo = set(), [], list(formulas)
+_RF_CACHE = {}      # formula id -> (formula kept alive, tuple of CEIL/FLOOR applications in it)
+
+
+def _rounding_apps(f):
+    k = f.get_id()
+    hit = _RF_CACHE.get(k)
+    if hit is not None and hit[0].eq(f): return hit[1]
+    seen, apps, todo = set(), [], [f]
     while todo:
         e = todo.pop()
-        if not z3.is_expr(e): continue
-        k = e.get_id()
-        if k in seen: continue
-        seen.add(k)
+        i = e.get_id()
+        if i in seen: continue
+        seen.add(i)
         if z3.is_app(e):
-            d = e.decl()
-            if e.num_args() != 1 or d.kind() != z3.Z3_OP_UNINTERPRETED:
-                todo.extend(e.children()); continue
-            if d.eq(CEIL) or d.eq(CEILI):
-                a = e.arg(0); c = CEIL(a)
-                out += [c == z3.ToReal(CEILI(a)), c >= a, c < a + 1]
-            elif d.eq(FLOOR) or d.eq(FLOORI):
-                a = e.arg(0); c = FLOOR(a)
-                out += [c == z3.ToReal(FLOORI(a)), c <= a, c > a - 1]
+            n = e.num_args()
+            if n == 0: continue
+            if n == 1 and e.decl().kind() == z3.Z3_OP_UNINTERPRETED:
+                d = e.decl()
+                if d.eq(CEIL) or d.eq(CEILI): apps.append(("c", e.arg(0)))
+                elif d.eq(FLOOR) or d.eq(FLOORI): apps.append(("f", e.arg(0)))
             todo.extend(e.children())
         elif z3.is_quantifier(e):
             todo.append(e.body())
+    apps = tuple(apps)
+    _RF_CACHE[k] = (f, apps)
+    return apps
+
+
+def rounding_facts(formulas):
+    """definitional facts for every CEIL/FLOOR application occurring in `formulas`"""
+    seen, out = set(), []
+    for f in formulas:
+        if not z3.is_expr(f): continue
+        for kind, a in _rounding_apps(f):
+            key = (kind, a.get_id())
+            if key in seen: continue
+            seen.add(key)
+            if kind == "c":
+                c = CEIL(a); out += [c == z3.ToReal(CEILI(a)), c >= a, c < a + 1]
+            else:
+                c = FLOOR(a); out += [c == z3.ToReal(FLOORI(a)), c <= a, c > a - 1]
+    # rounding applications nested in the arguments of the facts just produced are already covered: the traversal of the
+    # enclosing formula visits every sub-term
     return out
 
 
